@@ -74,6 +74,51 @@ def install_integer_bytes(reg):
                      modifies=[], assumed='Integer.from_bytes == OS2IP / its little-endian twin; ' + BIGINT))
 
 
+# ---------------------------------------------------------------------------------------------------- entropy (C18 consumers)
+
+def install_entropy(reg):
+    """caller-supplied randfunc = ghost tape rnd_tape(i) with cursor rnd_cursor() (contracts/sig_common.py); the system RNG
+    (Crypto.Random.get_random_bytes) is a DIFFERENT tape: fresh bytes about which only the length is known.
+    Integer.random_range(min_inclusive=a, max_exclusive=b, randfunc=f): assumed (its rejection sampler is proved under C18 in the
+    random area): a value in [a, b - 1] that is a function of the bounds and of the tape from the current cursor on; it makes at
+    least one call of f and none of the system RNG."""
+    from .sig_common import randfunc_hook, RND_TAPE      # noqa  (registers the spec forms rnd_tape / rnd_cursor)
+    from vf.pyvc.values import SOpaque
+
+    def grb(E, st, args, kw):
+        n = args[0]
+        v = E.fresh_bytes('system_entropy')
+        st.assume(z3.Length(v.t) == zint(n))
+        st.ghost['sys_cursor'] = st.ghost.get('sys_cursor', 0) + 1
+        return val(st, v)
+    reg.overrides['Crypto.Random.get_random_bytes'] = BuiltinV('Crypto.Random.get_random_bytes', grb)
+
+    def random_range(E, st, args, kw):
+        lo = kw.get('min_inclusive')
+        hi = kw.get('max_inclusive')
+        if kw.get('max_exclusive') is not None:
+            hx = EC.int_of(st, kw['max_exclusive'])
+            hi = mk_int(zint(hx) - 1)
+        lo, hi = EC.int_of(st, lo), EC.int_of(st, hi)
+        f = kw.get('randfunc')
+        if lo is None or hi is None or set(kw) - {'min_inclusive', 'max_inclusive', 'max_exclusive', 'randfunc'}:
+            raise Exception('random_range: unsupported call shape')
+        E.registry.used.add('assumed: Integer.random_range == rejection sampler over the caller tape (C18, random area)')
+        if isinstance(f, SOpaque) and f.label.startswith('callable:randfunc'):
+            cur = st.ghost.get('rnd_cursor', 0)
+            v = uf(E, st, 'spec.keys.random_range', lo, hi, cur)
+            k = E.fresh_int('draws')
+            st.assume(k.t >= 1)
+            st.ghost['rnd_cursor'] = mk_int(zint(cur) + k.t)
+        else:
+            v = E.fresh_int('system_random')       # system tape (randfunc None / get_random_bytes): only the range is known
+            st.ghost['sys_cursor'] = st.ghost.get('sys_cursor', 0) + 1
+        st.assume(z3.And(zint(v) >= zint(lo), zint(v) <= zint(hi)))
+        return val(st, EC.mk_integer(st, v))
+    reg.models['Crypto.Math._IntegerBase.IntegerBase.random_range'] = random_range
+    return randfunc_hook
+
+
 # ---------------------------------------------------------------------------------------------------- EccKey
 
 def key_valid(cid):
@@ -215,7 +260,107 @@ def registry(cid, tier='thorough'):
                               'seed': 'result._seed == %s' % S},
                      modifies=['kwargs'], inline=[KEY + '.pointQ', KEY + '.d', KEY + '.seed', KEY + '.has_private'],
                      opaque=(['spec.keys.low_order_u'] if False else [])))
+    # ------------------------------------------------------------------------------------------------ generate (C18, C05)
+    # the private part is a function of the caller's tape only: NIST d = random_range(1, order - 1) (rejection sampler, no modulo),
+    # Ed / X curves: the seed is EXACTLY the first 32 / 57 / 56 tape octets of ONE call; the key satisfies the invariant of its type
+    reg.opaque_call_hook = install_entropy(reg)
+    gshapes = ['dict(curve:const:%r, randfunc:any:callable:randfunc)' % n_ for n_ in nm] + ['dict(curve:const:%r)' % nm[0],
+               'dict(curve:str, randfunc:any:callable:randfunc)', 'dict(curve:const:%r, bogus:int)' % nm[0]]
+    has_rf = 'old("randfunc" in kwargs)'
+    if cid <= 5:
+        gens = {'d': '%s ==> result._d._value == spec.keys.random_range(1, %d, 0)' % (has_rf, order - 1),
+                'range': '1 <= result._d._value and result._d._value < %d' % order, 'no_seed': 'result._seed is None'}
+    else:
+        L = SK.seed_len(cid)
+        gens = {'seed': '%s ==> (result._seed == rnd_tape(0) and rnd_cursor() == 1)' % has_rf, 'seed_len': 'len(result._seed) == %d' % L,
+                'd': 'result._d._value == spec.keys.scalar_of_seed(%d, result._seed)' % cid}
+    gens['valid'] = 'valid(result)'
+    gens['private'] = 'result._d is not None'
+    graises = {'TypeError': ('iff', '"bogus" in kwargs'), 'ValueError': ('iff' if not mont else 'only_if', 'kwargs.get("curve") not in %r' % (EC.ALL_NAMES,))}
+    if mont:
+        # X25519 / X448: the public point is computed and validated; refusal of a low-order d*G is part of the code path (it cannot
+        # happen for a clamped scalar, which is group theory outside this model)
+        q_ = mul_G(cid, 'spec.keys.scalar_of_seed(%d, rnd_tape(0))' % cid)
+        graises['ValueError'] = ('only_if', 'kwargs.get("curve") not in %r or True' % (EC.ALL_NAMES,))
+    reg.add(Contract(K + 'generate', params={'kwargs': '|'.join(gshapes)}, result=OKEY, raises=graises, ensures=gens,
+                     requires=['rnd_cursor() == 0'], modifies=['kwargs'], inline=[KEY + '.pointQ', KEY + '.d', KEY + '.seed', KEY + '.has_private']))
+    add_decoders(reg, cid)
+    add_sec1(reg, cid, nm)
     return finish(reg)
+
+
+def add_sec1(reg, cid, nm):
+    """_import_public_der (SEC 1 2.3.4 octet-string-to-point): length per point type, decompression picks the root with the requested
+    parity, the coordinates then go through construct (on-curve test); defined for the short-Weierstrass curves only"""
+    n = SK.curve_bytes(cid)
+    p_ = SK.CURVE_P[cid]
+    oid = SK.CURVE_OID[cid]
+    shapes = {'ec_point': 'bytes', 'curve_oid': 'const:%r|none|str' % oid, 'curve_name': 'const:%r|none|str' % nm[0]}
+    known = '(curve_oid == %r or (curve_oid is None and curve_name == %r))' % (oid, nm[0])
+    inl = [KEY + '.pointQ', KEY + '.d', KEY + '.seed', KEY + '.has_private']
+    if cid > 5:
+        reg.add(Contract(K + '_import_public_der', params=shapes, requires=[known], raises={'ValueError': ('iff', 'True or len(ec_point) >= 0')},
+                         modifies=[], inline=inl))
+        return
+    b_ = SK.CURVE_B[cid]
+    t = 'ec_point[0]'
+    x_u, y_u = 'be(ec_point[1:%d])' % (n + 1), 'be(ec_point[%d:])' % (n + 1)
+    x_c = 'be(ec_point[1:])'
+    rhs = '((%s * %s * %s - %s * 3 + %d) %% %d)' % (x_c, x_c, x_c, x_c, b_, p_)          # y^2 = x^3 - 3x + b (FIPS 186-4 D.1.2)
+    root = 'spec.keys.sqrt_mod(%s, %d)' % (rhs, p_)
+    y_c = '(%s if %s %% 2 == %s - 2 else %d - %s)' % (root, root, t, p_, root)            # SEC 1 2.3.4 step 2.4: the root with y mod 2 == prefix - 2
+    bad_u = '(%s == 4 and (len(ec_point) != %d or not spec.ecgroup.valid(%d, spec.ecgroup.pt(%s, %s))))' % (t, 1 + 2 * n, cid, x_u, y_u)
+    bad_c = ('((%s == 2 or %s == 3) and (len(ec_point) != %d or not spec.keys.is_square_mod(%s, %d) or not spec.ecgroup.valid(%d, spec.ecgroup.pt(%s, %s))))'
+             % (t, t, 1 + n, rhs, p_, cid, x_c, y_c))
+    unknown = '(curve_oid is not None and curve_oid != %r) or (curve_oid is None and curve_name != %r)' % (oid, nm[0])
+    G = 'result._point._point._raw_pointer.g_pt'
+    reg.add(Contract(K + '_import_public_der', params=shapes, result=OKEY,
+                     raises={'IndexError': ('iff', '%s and len(ec_point) == 0' % known),
+                             'ValueError': ('iff', '(%s) or (len(ec_point) > 0 and (%s or %s or %s not in (2, 3, 4)))' % (unknown, bad_u, bad_c, t))},
+                     ensures={'public': 'result._d is None and result._point is not None', 'valid': 'valid(result)',
+                              'uncompressed': '%s == 4 ==> %s == spec.ecgroup.pt(%s, %s)' % (t, G, x_u, y_u),
+                              'compressed_x': '%s != 4 ==> spec.ecgroup.px(%s) == %s' % (t, G, x_c),
+                              'compressed_y': '%s != 4 ==> spec.ecgroup.py(%s) == %s' % (t, G, y_c),
+                              'parity': '%s != 4 ==> spec.ecgroup.py(%s) %% 2 == %s - 2' % (t, G, t)},
+                     modifies=[], inline=inl))
+
+
+def add_decoders(reg, cid):
+    """raw public-key decoders (curve independent Python, registered in every per-curve registry; verified in the unit of their curve)"""
+    P1, P4 = SK.CURVE_P[6], SK.CURVE_P[7]
+    iv = 'spec.keys.ival'
+    # RFC 8032 5.1.3: refused iff not 32 octets, y >= p, x^2 not a square (or its denominator not invertible), or x == 0 with the sign bit set
+    y, sg = 'spec.keys.ed25519_y(encoded)', 'spec.keys.ed25519_sign(encoded)'
+    x2 = 'spec.keys.ed25519_x2(%s)' % y
+    v1 = '((((%s * %s) %% %d) * %d + 1) %% %d)' % (y, y, P1, SK.ED25519_D, P1)
+    bad = ('len(encoded) != 32 or %s >= %d or (%s == 1 and %s == 1) or (%s != 1 and (spec.keys.gcd(%s, %d) != 1 or not spec.keys.is_square_mod(%s, %d) '
+           'or (spec.keys.sqrt_mod(%s, %d) == 0 and %s == 1)))' % (y, P1, y, sg, y, v1, P1, x2, P1, x2, P1, sg))
+    reg.add(Contract(K + '_import_ed25519_public_key', params={'encoded': 'bytes'}, raises={'ValueError': ('iff', bad)},
+                     ensures={'y': '%s(result[1]) == %s' % (iv, y), 'range': '0 <= %s(result[0]) and %s(result[0]) < %d' % (iv, iv, P1),
+                              'sign': '%s(result[0]) %% 2 == %s' % (iv, sg),
+                              'x': '%s != 1 ==> (%s(result[0]) == spec.keys.sqrt_mod(%s, %d) or %s(result[0]) == %d - spec.keys.sqrt_mod(%s, %d))' % (y, iv, x2, P1, iv, P1, x2, P1),
+                              'neutral': '%s == 1 ==> %s(result[0]) == 0' % (y, iv)},
+                     modifies=[]))
+    y, sg = 'spec.keys.ed448_y(encoded)', 'spec.keys.ed448_sign(encoded)'
+    x2 = 'spec.keys.ed448_x2(%s)' % y
+    v4 = '((((%s * %s) %% %d) * %d - 1) %% %d)' % (y, y, P4, SK.ED448_D, P4)
+    bad = ('len(encoded) != 57 or encoded[56] %% 128 != 0 or %s >= %d or (%s == 1 and %s == 1) or (%s != 1 and (spec.keys.gcd(%s, %d) != 1 or '
+           'not spec.keys.is_square_mod(%s, %d) or (spec.keys.sqrt_mod(%s, %d) == 0 and %s == 1)))' % (y, P4, y, sg, y, v4, P4, x2, P4, x2, P4, sg))
+    reg.add(Contract(K + '_import_ed448_public_key', params={'encoded': 'bytes'}, raises={'ValueError': ('iff', bad)},
+                     ensures={'y': '%s(result[1]) == %s' % (iv, y), 'range': '0 <= %s(result[0]) and %s(result[0]) < %d' % (iv, iv, P4),
+                              'sign': '%s(result[0]) %% 2 == %s' % (iv, sg),
+                              'x': '%s != 1 ==> (%s(result[0]) == spec.keys.sqrt_mod(%s, %d) or %s(result[0]) == %d - spec.keys.sqrt_mod(%s, %d))' % (y, iv, x2, P4, iv, P4, x2, P4),
+                              'neutral': '%s == 1 ==> %s(result[0]) == 0' % (y, iv)},
+                     modifies=[]))
+    # RFC 7748 5: u-coordinates: 32 octets with the top bit masked / 56 octets, little endian; any other length is refused
+    reg.add(Contract(K + '_import_curve25519_public_key', params={'encoded': 'bytes'}, raises={'ValueError': ('iff', 'len(encoded) != 32')},
+                     ensures={'u': 'result._value == spec.keys.x25519_u(encoded)'}, modifies=[], result=OINT))
+    reg.add(Contract(K + '_import_curve448_public_key', params={'encoded': 'bytes'}, raises={'ValueError': ('iff', 'len(encoded) != 56')},
+                     ensures={'u': 'result._value == le(encoded)'}, modifies=[], result=OINT))
+
+
+DECODERS = {6: [K + '_import_ed25519_public_key'], 7: [K + '_import_ed448_public_key'], 8: [K + '_import_curve25519_public_key'],
+            9: [K + '_import_curve448_public_key']}
 
 
 REVEAL = {KEY + '.__init__'}
@@ -291,4 +436,10 @@ def units(prop, tier):
         for cid in EC.ALL_CIDS:
             out.append(pyvc_unit(prop, 'key.ecc.init.%s' % EC.LABEL[cid], lambda cid=cid: registry(cid, tier), [KEY + '.__init__'], weight=2))
             out.append(pyvc_unit(prop, 'key.ecc.construct.%s' % EC.LABEL[cid], lambda cid=cid: registry(cid, tier), [K + 'construct'], weight=2))
+            if cid in DECODERS:
+                out.append(pyvc_unit(prop, 'key.ecc.decode.%s' % EC.LABEL[cid], lambda cid=cid: registry(cid, tier), DECODERS[cid]))
+            out.append(pyvc_unit(prop, 'key.ecc.sec1.%s' % EC.LABEL[cid], lambda cid=cid: registry(cid, tier), [K + '_import_public_der']))
+    if prop == 'C18':
+        for cid in EC.ALL_CIDS:
+            out.append(pyvc_unit(prop, 'key.ecc.generate.%s' % EC.LABEL[cid], lambda cid=cid: registry(cid, tier), [K + 'generate']))
     return out
